@@ -70,6 +70,7 @@ static std::string Conc(const std::string & t, const World & w)
    if (t == "h") return w.host;
    if ((t.size() == 1)&&(t[0] >= '0')&&(t[0] <= '3')) return ((size_t)(t[0]-'0') < w.ids.size()) ? w.ids[t[0]-'0'] : std::string("99999");
    if (t == "1,0")   return w.ids[1]+","+w.ids[0];
+   if (t == "2,1")   return w.ids[2]+","+w.ids[1];
    if (t == "<0-1>") return "<"+w.ids[0]+"-"+w.ids[1]+">";
    if (t == "~0")    return "~"+w.ids[0];
    return t;  // "*" and the user-level clauses are written as they are
@@ -91,6 +92,9 @@ static bool TokMatch(const std::string & t, const std::string & n)
 {
    if ((t == "*")||(t == "?")) return true;
    if (t == "1,0")   return (n == "0")||(n == "1");
+   if (t == "2,1")   return (n == "1")||(n == "2");
+   if (t == "a,c")   return n == "a";
+   if (t == "b,c")   return n == "b";
    if (t == "<0-1>") return (n == "0")||(n == "1");
    if (t == "~0")    return n != "0";
    if (t == "\\a")   return n == "a";
@@ -219,16 +223,18 @@ static void BuildMenu()
    P3("*","0","a") P3("*","0","*") P3("*","1,0","b,a") P3("h","*","b") P3("h","<0-1>","?") P3("*","~0","a")
    for (int i=0; i<15; i++) P4("*","*",C5[i/3],D3[i%3])
    P4("*","*","\\a","b") P4("*","*","?","?") P4("*","0","a","*") P4("*","0","*","b") P4("h","1,0","a","a") P4("*","<0-1>","(a|c)","a") P4("*","*","a","(a|c)")
+   P2("*","2,1") P3("*","*","a,c") P3("*","*","b,c") P4("*","*","a","a,c") P4("*","*","a","b,c")      // 43..47: lists with different items
 }
 struct Universe {std::vector<int> codes[3]; std::vector<int> menu; int maxp;};
 static bool GetUniverse(const std::string & name, Universe & u)
 {
-   static const int core[] = {1, 3, 4, 7, 9, 10, 13, 16, 21, 23, 27, 29, 32};
+   static const int core[] = {1, 3, 4, 7, 9, 10, 13, 16, 21, 23, 27, 29, 32}; static const int lists[] = {5, 43, 44, 45, 13, 46, 47};
    std::vector<int> all25, four, zero, coreMenu(core, core+13), fullMenu;
    for (int i=0; i<25; i++) all25.push_back(i);
    four.push_back(0); four.push_back(1); four.push_back(5); four.push_back(6); zero.push_back(0);
    for (size_t i=1; i<=g_menu.size(); i++) fullMenu.push_back((int) i);
    if (name == "core") {u.codes[0] = all25; u.codes[1] = four;  u.codes[2] = zero; u.menu = coreMenu; u.maxp = 2; return true;}
+   if (name == "lists") {static const int c0[] = {5, 21}, c1[] = {1, 21}, c2[] = {1, 5}; u.codes[0].assign(c0, c0+2); u.codes[1].assign(c1, c1+2); u.codes[2].assign(c2, c2+2); u.menu.assign(lists, lists+7); u.maxp = 3; return true;}
    if (name == "full") {u.codes[0] = all25; u.codes[1] = all25; u.codes[2] = zero; u.menu = fullMenu; u.maxp = 2; return true;}
    if (name == "tri")  {u.codes[0] = all25; u.codes[1] = four;  u.codes[2] = four; u.menu = coreMenu; u.maxp = 3; return true;}
    return false;
@@ -304,11 +310,11 @@ struct Net
 // the clause table as the real StringMatcher sees it: one row per (token, level)
 static mj::Value ClauseTable(const World & w, int nsess)
 {
-   static const char * lv0[] = {"*", "h"}; static const char * lv1[] = {"*", "0", "1", "2", "3", "1,0", "<0-1>", "~0"}; static const char * lv2[] = {"*", "a", "b", "\\a", "?", "(a|c)", "b,a", "~a", "b,\\a"};
+   static const char * lv0[] = {"*", "h"}; static const char * lv1[] = {"*", "0", "1", "2", "3", "1,0", "<0-1>", "~0", "2,1"}; static const char * lv2[] = {"*", "a", "b", "\\a", "?", "(a|c)", "b,a", "~a", "b,\\a", "a,c", "b,c"};
    mj::Value rows = mj::Value::Arr();
    for (int lvl=0; lvl<3; lvl++)
    {
-      const char ** toks = (lvl == 0) ? lv0 : ((lvl == 1) ? lv1 : lv2); const int nt = (lvl == 0) ? 2 : ((lvl == 1) ? 8 : 9);
+      const char ** toks = (lvl == 0) ? lv0 : ((lvl == 1) ? lv1 : lv2); const int nt = (lvl == 0) ? 2 : ((lvl == 1) ? 9 : 11);
       SV names; if (lvl == 0) names.push_back("h"); else if (lvl == 1) {for (int i=0; i<nsess; i++) {char c[2] = {(char)('0'+i), 0}; names.push_back(c);}} else {names.push_back("a"); names.push_back("b");}
       for (int t=0; t<nt; t++)
       {
@@ -640,7 +646,7 @@ static Pat RandomKey(std::mt19937 & rng, int nsess)
 {
    const std::string r = SessName((int)(rng()%nsess));
    Pat p;
-   switch (rng()%20)
+   switch (rng()%24)
    {
       case 0: p = MkPat(false, "a"); break;            case 1: p = MkPat(false, "*"); break;             case 2: p = MkPat(false, "a", "*"); break;
       case 3: p = MkPat(false, "*", "b"); break;       case 4: p = MkPat(false, "b", "a"); break;        case 5: p = MkPat(false, "b,a"); break;
@@ -649,6 +655,8 @@ static Pat RandomKey(std::mt19937 & rng, int nsess)
       case 12: p = MkPat(true, "*", r.c_str()); break; case 13: p = MkPat(true, "*", r.c_str(), "*"); break; case 14: p = MkPat(true, "h", "*", "b"); break;
       case 15: p = MkPat(true, "*", "<0-1>", "a"); break; case 16: p = MkPat(true, "*"); break;         case 17: p = MkPat(true, "*", "~0", "*"); break;
       case 18: p = MkPat(false, "*", "b,\\a"); break;
+      case 19: p = MkPat(false, "a,c"); break;         case 20: p = MkPat(false, "b,c"); break;          case 21: p = MkPat(true, "*", "2,1"); break;
+      case 22: p = MkPat(false, "a", "b,c"); break;
       default: p = MkPat(true, "*", "1,0", "b,a"); break;
    }
    if (NormCl(p).size() >= 3) p.f = (int)(rng()%3);
@@ -702,12 +710,21 @@ static const int SMALL_CODES[] = {0, 1, 5, 6, 10};
 static void SmallSpace(std::vector<std::vector<Pat> > & keysets)
 {
    for (size_t i=0; i<g_menu.size(); i++) {std::vector<Pat> k; Pat p; p.cl = g_menu[i]; k.push_back(p); keysets.push_back(k);}
-   Universe u; GetUniverse("core", u);
-   for (size_t i=0; i<u.menu.size(); i++) for (size_t j=0; j<u.menu.size(); j++)
+   const char * unis[] = {"core", "lists"};
+   for (int un=0; un<2; un++)
    {
-      std::vector<Pat> k; k.push_back(MenuPat(u, (long) i)); k.push_back(MenuPat(u, (long) j));
-      if ((k[0].cl.size() >= 3)&&(k[0].cl[0] == "*")&&(k[0].cl[1] == "*")) {k[0].abs = false; k[0].cl.erase(k[0].cl.begin(), k[0].cl.begin()+2);}   // first key in the relative form
-      const size_t before = k.size(); AvoidF25(k); if (k.size() == before) keysets.push_back(k);
+      Universe u; GetUniverse(unis[un], u);
+      for (size_t i=0; i<u.menu.size(); i++) for (size_t j=0; j<u.menu.size(); j++)
+      {
+         std::vector<Pat> k; k.push_back(MenuPat(u, (long) i)); k.push_back(MenuPat(u, (long) j));
+         if ((k[0].cl.size() >= 3)&&(k[0].cl[0] == "*")&&(k[0].cl[1] == "*")) {k[0].abs = false; k[0].cl.erase(k[0].cl.begin(), k[0].cl.begin()+2);}   // first key in the relative form
+         const size_t before = k.size(); AvoidF25(k); if (k.size() == before) keysets.push_back(k);
+      }
+      if (un == 1) for (size_t i=0; i<u.menu.size(); i++) for (size_t j=0; j<u.menu.size(); j++) for (size_t m=0; m<u.menu.size(); m++)      // three list patterns
+      {
+         std::vector<Pat> k; k.push_back(MenuPat(u, (long) i)); k.push_back(MenuPat(u, (long) j)); k.push_back(MenuPat(u, (long) m));
+         const size_t before = k.size(); AvoidF25(k); if (k.size() == before) keysets.push_back(k);
+      }
    }
 }
 static void SmallHistory(long tree, const std::vector<long> & combos, const std::vector<std::vector<Pat> > & keysets, std::vector<mj::Value> & steps)
@@ -791,6 +808,21 @@ static void Directed(std::vector<std::pair<std::string, std::vector<mj::Value> >
       st.push_back(EvRefl(0, false));
       {KEYS1(MkPat(false, "a")) st.push_back(EvSend(0, ks, "none", 0));}
       hs.push_back(std::make_pair(std::string("reflect-to-self"), st));
+   }
+   {  // several keys of ONE depth that are comma lists of literals at the same level (hash lookups, list after list), each item another session's node
+      SV c; c.push_back("a"); c.push_back("b");
+      std::vector<mj::Value> st; st.push_back(EvSet(1, a, 1)); st.push_back(EvSet(2, b, 1)); st.push_back(EvSet(0, a, 1)); st.push_back(EvSet(2, ab, 1)); st.push_back(EvSet(1, ab, 1));
+      {KEYS2(MkPat(false, "a,c"), MkPat(false, "b,c")) st.push_back(EvSend(0, ks, "none", 0));}
+      {KEYS2(MkPat(false, "b,c"), MkPat(false, "a,c")) st.push_back(EvSend(0, ks, "none", 0));}
+      {std::vector<Pat> ks; ks.push_back(MkPat(false, "b,a")); ks.push_back(MkPat(false, "a,c")); ks.push_back(MkPat(false, "b,c")); st.push_back(EvSend(0, ks, "none", 0));}
+      {KEYS2(MkPat(false, "a", "a,c"), MkPat(false, "a", "b,c")) st.push_back(EvSend(0, ks, "none", 0));}
+      {KEYS2(MkPat(true, "h", "1,0"), MkPat(true, "*", "2,1")) st.push_back(EvSend(0, ks, "none", 0));}
+      {KEYS2(MkPat(true, "*", "2,1"), MkPat(true, "h", "1,0")) st.push_back(EvSend(2, ks, "none", 0));}
+      {KEYS2(MkPat(false, "a,c"), MkPat(false, "b,c")) st.push_back(EvDef(0, ks));}
+      {std::vector<Pat> none; st.push_back(EvSend(0, none, "none", 0));}
+      {KEYS2(MkPat(false, "b,c"), MkPat(false, "a,c")) st.push_back(EvDef(1, ks));}
+      {std::vector<Pat> none; st.push_back(EvSend(1, none, "none", 0));}
+      hs.push_back(std::make_pair(std::string("comma-lists-of-one-depth"), st));
    }
    {  // bursts: several Messages handed over before the server runs; per (sender, receiver) order
       std::vector<mj::Value> st; st.push_back(EvSet(1, a, 1)); st.push_back(EvSet(2, a, 1));
